@@ -215,6 +215,7 @@ package tars
 //@   site Send#0 assert [C08] select(adp.resp.dom, ifaceof(id0, "int32")) && ival(select(adp.resp.val, ifaceof(id0, "int32"))) == readCh
 //@   ensures [C09] s.queueLen == q0
 //@   ensures s.ginv == old(s.ginv) && s.manager == old(s.manager) && ctx.hasdl == old(ctx.hasdl) && msg.Ser == old(msg.Ser)
+//@   ensures [C09] ctx.dl == old(ctx.dl) && s.gto == old(s.gto) && s.ghad == old(s.ghad)
 //@   site SelectAdapterProxy#0 ghost s.gentered = false
 //@   site SelectAdapterProxy#0 ghost s.gotreply = false
 //@   site successAdd#1 ghost s.gotreply = true
@@ -246,6 +247,7 @@ package tars
 //@   noframe
 //@   allocates
 //@   ensures ctx.hasdl == old(ctx.hasdl) && msg.Ser == old(msg.Ser) && msg.Ser.ginv == old(msg.Ser.ginv) && msg.Ser.manager == old(msg.Ser.manager)
+//@   ensures [C09] ctx.dl == old(ctx.dl) && msg.Ser.gto == old(msg.Ser.gto) && msg.Ser.ghad == old(msg.Ser.ghad)
 //@ func dynamic:reportStatFunc
 //@   trusted
 //@ func (*Message).Init
@@ -258,14 +260,16 @@ package tars
 //@   allocates
 //@   site preInvoke#0 ghost s.ginv = s.ginv + 1
 //@   site postInvoke#0 ghost s.ginv = s.ginv - 1
-//@   site doInvoke#0 assert [C09] $1.hasdl
-//@   site dynamic#1 assert [C09] $0.hasdl
-//@   site dynamic#2 assert [C09] $0.hasdl
-//@   site dynamic#3 assert [C09] $0.hasdl
-//@   site dynamic#4 assert [C09] $0.hasdl
+//@   site GetClientTimeout#0 ghostafter s.gto = (($ret0 && $ret2) ? s64($ret1 * 1000000) : s64(s.timeout * 1000000))
+//@   site Deadline#0 ghostafter s.ghad = $ret1
+//@   site doInvoke#0 assert [C09] $1.hasdl && (!s.ghad ==> $1.dl == s.gto)
+//@   site dynamic#1 assert [C09] $0.hasdl && (!s.ghad ==> $0.dl == s.gto)
+//@   site dynamic#2 assert [C09] $0.hasdl && (!s.ghad ==> $0.dl == s.gto)
+//@   site dynamic#3 assert [C09] $0.hasdl && (!s.ghad ==> $0.dl == s.gto)
+//@   site dynamic#4 assert [C09] $0.hasdl && (!s.ghad ==> $0.dl == s.gto)
 //@   ensures [C09] s.ginv == old(s.ginv)
-//@   loop 0 invariant s != nil && s.manager != nil && msg != nil && msg.Ser == s && ctx.hasdl && s.ginv == old(s.ginv) + 1
-//@   loop 1 invariant s != nil && s.manager != nil && msg != nil && msg.Ser == s && ctx.hasdl && s.ginv == old(s.ginv) + 1
+//@   loop 0 invariant s != nil && s.manager != nil && msg != nil && msg.Ser == s && ctx.hasdl && (!s.ghad ==> ctx.dl == s.gto) && s.ginv == old(s.ginv) + 1
+//@   loop 1 invariant s != nil && s.manager != nil && msg != nil && msg.Ser == s && ctx.hasdl && (!s.ghad ==> ctx.dl == s.gto) && s.ginv == old(s.ginv) + 1
 //@   loop 0 modifies everything
 //@   loop 1 modifies everything
 //
